@@ -58,6 +58,7 @@ extern "C" void h_ReadEnum()
     }
     if (!well_delimited) __CPROVER_assert(s <= SEVERITY_WARNING, "C09 an enumeration item without its two dots raises an error in an exchange file");
     __CPROVER_assert(in._m_consumed <= (unsigned long)(p - 1), "C09 the attribute delimiter is never consumed by the enumeration reader");
+    if (in_close != '.') __CPROVER_assert(in._m_consumed == (unsigned long)(p - 2), "C09 the character after an enumeration item that is not its closing dot (e.g. the attribute delimiter) is left unread");
 }
 
 /* C09/C01: writer: an enumeration value is written as its declared item name between dots, an unset one as $ */
